@@ -10255,20 +10255,22 @@ simplifier_insert_input_roots(simplifier_t *self)
     tsk_size_t num_flushed_edges;
     double youngest_root_time = DBL_MAX;
     const double *node_time = self->tables->nodes.time;
+    bool filter_nodes = !(self->options & TSK_SIMPLIFY_NO_FILTER_NODES);
+    bool new_node;
 
     for (input_id = 0; input_id < (tsk_id_t) self->input_tables.nodes.num_rows;
          input_id++) {
         x = self->ancestor_map_head[input_id];
         if (x != NULL) {
             output_id = self->node_id_map[input_id];
-            if (output_id == TSK_NULL) {
+            new_node = output_id == TSK_NULL;
+            if (new_node) {
                 output_id = simplifier_record_node(self, input_id);
                 if (output_id < 0) {
                     ret = (int) output_id;
                     goto out;
                 }
             }
-            youngest_root_time = TSK_MIN(youngest_root_time, node_time[output_id]);
             while (x != NULL) {
                 if (x->node != output_id) {
                     ret = simplifier_record_edge(self, x->left, x->right, x->node);
@@ -10283,6 +10285,18 @@ simplifier_insert_input_roots(simplifier_t *self)
             ret = simplifier_flush_edges(self, output_id, &num_flushed_edges);
             if (ret != 0) {
                 goto out;
+            }
+            if (filter_nodes && new_node && num_flushed_edges == 0) {
+                /* Every edge below this root was skipped (reduce_to_site_topology
+                 * with no site in the interval): do not leave an unreferenced
+                 * node behind, as in simplifier_merge_ancestors. */
+                ret = simplifier_rewind_node(self, input_id, output_id);
+                if (ret != 0) {
+                    goto out;
+                }
+            } else {
+                youngest_root_time
+                    = TSK_MIN(youngest_root_time, node_time[output_id]);
             }
         }
     }
